@@ -520,6 +520,62 @@ func c05Reduce(b *hx.Built, lay hx.MLayout, agree bool) (err error) {
 	return nil
 }
 
+// c05Mixed: the links that count toward one step come from functionaries authorised in different ways
+// (a listed key, certificates): they count alike and must agree alike.
+type c05Mixed struct {
+	Kinds     []string `json:"kinds"`   // honest link kinds of the C02 population builder
+	Dissenter int      `json:"dissenter"` // index into kinds of the link that reports another product digest (-1: none)
+	Threshold int      `json:"threshold"`
+	Inter     string   `json:"intermediate"`
+}
+
+func c05MixedRun(c c05Mixed, r *hx.Rec) error {
+	cc := c02Case{Threshold: c.Threshold, Kinds: c.Kinds, LayoutWrapper: "legacy", Intermediate: c.Inter, Repeats: 1}
+	w, truth, err := c02World(cc)
+	if err != nil {
+		return fmt.Errorf("harness: %v", err)
+	}
+	counted := 0
+	for _, f := range w.Links {
+		if len(truth[f.Name]) > 0 {
+			counted++
+		}
+	}
+	if counted != len(c.Kinds) || counted < c.Threshold {
+		r.Unasserted()
+		return nil
+	}
+	if c.Dissenter >= 0 && c.Dissenter < len(w.Links) {
+		l := *w.Links[c.Dissenter].Meta.Link
+		l.Products = hx.ArtifactsOf(map[string]string{"out.txt": "another payload"})
+		w.Links[c.Dissenter].Meta = hx.MMeta{Link: &l}
+		r.Label("dissenter=%s", strings.SplitN(c.Kinds[c.Dissenter], ":", 2)[0])
+		r.Nontrivial()
+	}
+	root, err := os.MkdirTemp("", "c05m-")
+	if err != nil {
+		return nil
+	}
+	defer os.RemoveAll(root)
+	b, err := hx.Materialise(w, root)
+	if err != nil {
+		return fmt.Errorf("harness: materialise: %v", err)
+	}
+	for rep := 0; rep < 4; rep++ {
+		out := b.Verify()
+		if out.Panic != nil {
+			return fmt.Errorf("verification panicked: %v", out.Panic)
+		}
+		if c.Dissenter >= 0 && !out.Rejected() {
+			return fmt.Errorf("verification accepted although the %d links that count toward the step (%v) do not report the same products: %s reports another digest", counted, c.Kinds, c.Kinds[c.Dissenter])
+		}
+		if c.Dissenter < 0 && out.Rejected() {
+			return fmt.Errorf("counted links %v agree, threshold %d: rejected: %s", c.Kinds, c.Threshold, out)
+		}
+	}
+	return nil
+}
+
 func TestC05(t *testing.T) {
 	begin(t, "C05")
 	hx.Assume("counted links = links honestly signed by an authorised pool key (ground truth by construction); decoys are unsigned, signed by an unauthorised key, or carry an authorised key's signature over other content")
@@ -528,6 +584,22 @@ func TestC05(t *testing.T) {
 		Rule:  "generated chains of 1-4 steps, thresholds 1-3, sometimes more valid links than the threshold, every step with REQUIRE <honest product> / DISALLOW secret; optionally one counted link differing in exactly one material/product path, digest, algorithm name or presence; optionally an uncounted decoy link whose artifacts would flip a rule if used; optionally agreed artifacts that violate a rule; accept iff counted links agree and the reference rule interpreter accepts the agreed artifacts; summary link name/materials/products checked on accept; ReduceStepsMetadata observed directly; non-trivial = >=2 counted links for a step or a decoy; distinct by case JSON",
 		Cases: hx.Pick(500, 80000),
 		Gen:   c05Gen, Run: c05Run,
+	}.Execute(t)
+	if t.Failed() {
+		return
+	}
+	hx.Check[c05Mixed]{
+		Property: "C05", Part: "mixed-routes",
+		Rule:  "one step whose 2-4 counted links come from functionaries authorised by listed keys and by certificates (C02 population builder, all honest), threshold 1..n; optionally one of them reports another product digest: accept iff none dissents; non-trivial = a dissenter; distinct by case JSON",
+		Cases: hx.Pick(60, 4000),
+		Gen: func(t *rapid.T) c05Mixed {
+			pool := []string{"honest-key:" + c02A1 + ":legacy", "honest-key:" + c02A2 + ":dsse", "honest-cert:leaf1", "honest-cert:leaf2", "honest-cert:leaf-direct", "honest-key:" + c02A3 + ":legacy"}
+			kinds := rapid.SliceOfNDistinct(rapid.SampledFrom(pool), 2, 4, rapid.ID[string]).Draw(t, "kinds")
+			c := c05Mixed{Kinds: kinds, Dissenter: rapid.IntRange(-1, len(kinds)-1).Draw(t, "dissenter"), Threshold: rapid.IntRange(1, len(kinds)).Draw(t, "threshold"),
+				Inter: rapid.SampledFrom([]string{"layout", "caller"}).Draw(t, "inter")}
+			return c
+		},
+		Run: c05MixedRun,
 	}.Execute(t)
 	if t.Failed() {
 		return
